@@ -177,16 +177,18 @@ def run_stream(stream, seed, cases, extra, shards=None):
     def one(job):
         frm, cnt = job
         cmd = [HARNESS_BIN, stream, "--seed=%d" % seed, "--from=%d" % frm, "--cases=%d" % cnt] + extra
+        # how to regenerate exactly these cases from the CURRENT tree (used by --replay)
+        rerun = {"stream": stream, "seed": seed, "from": frm, "cases": cnt, "args": extra}
         rc, lines = sh(cmd, timeout=7200)
         lines = [l for l in lines.split("\n") if l.strip()]
         if rc != 0:
-            return [("<harness %s>" % " ".join(cmd), "FAIL HARNESS exit %d: %s" % (rc, "\n".join(lines[-3:])[:300]))]
+            return [("<harness %s>" % " ".join(cmd), "FAIL HARNESS exit %d: %s" % (rc, "\n".join(lines[-3:])[:300]), rerun)]
         rc2, out = sh([DRIVER_BIN], inp="\n".join(lines) + "\n", timeout=7200)
         verdicts = [l for l in out.split("\n") if l.strip()]
         if rc2 != 0 or len(verdicts) != len(lines):
             return [(lines[0] if lines else "<none>",
-                     "FAIL DRIVER exit %d, %d verdicts for %d lines: %s" % (rc2, len(verdicts), len(lines), out[-300:]))]
-        return list(zip(lines, verdicts))
+                     "FAIL DRIVER exit %d, %d verdicts for %d lines: %s" % (rc2, len(verdicts), len(lines), out[-300:]), rerun)]
+        return [(l, v, rerun) for l, v in zip(lines, verdicts)]
 
     res = []
     with ThreadPoolExecutor(max_workers=NCPU) as ex:
@@ -215,10 +217,11 @@ def small_scope_search(pid, cfg, seed, deadline):
             if time.time() > deadline:
                 return None
             res = run_stream(st["name"], seed + 7919, level.get("cases", 600), level["args"])
-            fails = [(l, v) for l, v in res if v.startswith("FAIL SPEC")]
+            fails = [(l, v, rr) for l, v, rr in res if v.startswith("FAIL SPEC")]
             if fails:
                 fails.sort(key=lambda lv: len(lv[0]))
-                return {"stream": st["name"], "args": level["args"], "line": fails[0][0], "verdict": fails[0][1]}
+                return {"stream": st["name"], "args": level["args"], "line": fails[0][0], "verdict": fails[0][1],
+                        "rerun": fails[0][2]}
     return None
 
 
@@ -295,7 +298,7 @@ def run_property(pid, tier, seed):
             n = st[tier]["cases"]
             res = run_stream(st["name"], seed, n, st[tier]["args"])
             report["streams"][st["name"]] = {"cases": len(res), "args": st[tier]["args"]}
-            for line, v in res:
+            for line, v, rr in res:
                 evaluations += 1
                 key = v.split(" ")[0] + " " + (v.split(" ")[1] if (v.startswith("FAIL") or v.startswith("ok timeout") or v.startswith("ok driver-timeout") or v.startswith("ok rejected")) and " " in v else "")
                 hist[key.strip()] = hist.get(key.strip(), 0) + 1
@@ -306,11 +309,11 @@ def run_property(pid, tier, seed):
                     if len(samples) < 3 and m and int(m.group(1)) > 0:
                         samples.append(line[:1500])
                 elif v.startswith("FAIL SPEC"):
-                    spec_fails.append({"stream": st["name"], "line": line, "verdict": v})
+                    spec_fails.append({"stream": st["name"], "line": line, "verdict": v, "rerun": rr})
                 elif v.startswith("FAIL MODEL"):
-                    model_fails.append({"stream": st["name"], "line": line, "verdict": v})
+                    model_fails.append({"stream": st["name"], "line": line, "verdict": v, "rerun": rr})
                 else:
-                    other_fails.append({"stream": st["name"], "line": line[:2000], "verdict": v})
+                    other_fails.append({"stream": st["name"], "line": line[:2000], "verdict": v, "rerun": rr})
     else:
         broken.append("driver or harness binary missing")
 
@@ -419,14 +422,36 @@ def setup():
 
 
 def replay(path):
+    """Replay a violation file against the CURRENT tree: rebuild the harness from /repo's working
+    tree, regenerate exactly the cases of the recorded shard (every case is a function of stream,
+    seed and index), run them through the implementation again and let the driver judge them.
+    Exit 0 when no case of the shard fails any more, 1 otherwise.  The stored line (input and the
+    output the implementation gave at the time) is re-judged as well, for reference."""
     d = json.load(open(path))
-    case = d.get("case")
+    case = d.get("case") or (d.get("first_model_disagreement") or [None])[0]
     if not case:
         print(json.dumps(d, indent=1))
         return 1
     rc, out = sh([DRIVER_BIN], inp=case["line"] + "\n")
-    print("stored line re-judged by the model/spec driver:", out.strip())
-    return 0 if out.strip().startswith("ok") else 1
+    print("stored line re-judged by the current model/spec driver:", out.strip()[:300])
+    rr = case.get("rerun")
+    if not rr:
+        return 0 if out.strip().startswith("ok") else 1
+    ok, o = build_harness()
+    if not ok:
+        print("harness does not build against the current tree")
+        return 1
+    cmd = [HARNESS_BIN, rr["stream"], "--seed=%d" % rr["seed"], "--from=%d" % rr["from"], "--cases=%d" % rr["cases"]] + rr["args"]
+    rc, lines = sh(cmd, timeout=7200)
+    lines = [l for l in lines.split("\n") if l.strip()]
+    rc2, vo = sh([DRIVER_BIN], inp="\n".join(lines) + "\n", timeout=7200)
+    verdicts = [l for l in vo.split("\n") if l.strip()]
+    bad = [(l, v) for l, v in zip(lines, verdicts) if v.startswith("FAIL")]
+    print("re-run of %s on the current tree: %d cases, %d failing" % (" ".join(cmd[1:]), len(lines), len(bad)))
+    for l, v in bad[:3]:
+        print("  ", v[:300])
+        print("     input:", l.split(" => ")[0][:400])
+    return 1 if (bad or rc != 0 or rc2 != 0) else 0
 
 
 def main():
